@@ -1,5 +1,6 @@
 SPECIFICATION Spec
 CONSTANT MaxBlocks = 4
+CONSTANT Prelude <- PreludeNone
 INVARIANT C05
 INVARIANT KnownVerdict
 INVARIANT InterOrder
